@@ -78,7 +78,11 @@ def main(argv=None):
         except Exception:
             sys.stderr.write("HARNESS ERROR: replay raised\n%s\n" % traceback.format_exc())
             return 2
-        if sig not in set(x.get("sig") for x in again) and v.get("address_dependent"):
+        if sig not in set(x.get("sig") for x in again) and again:
+            # the same execution violates the property again, but not with the identical signature: the library's behaviour
+            # varies between executions of one input (object addresses, uuid4 IDs of helper objects); still a violation
+            v = dict(v, note="re-execution violated the property with a different signature: %s" % sorted(set(x.get("sig") for x in again))[:3])
+        elif sig not in set(x.get("sig") for x in again) and v.get("address_dependent"):
             # the two compared executions differ only in object addresses; the difference itself is the evidence
             v = dict(v, note="observed once; not reproducible on demand because it depends on memory addresses")
         elif sig not in set(x.get("sig") for x in again):
